@@ -84,6 +84,31 @@ func evTime(opIndex int) time.Time { return evBase.Add(time.Duration(opIndex) * 
 
 func evIndexOf(t time.Time) int { return int(t.Sub(evBase) / time.Millisecond) }
 
+// Histories give op i the kernel timestamp index scramble(i): unique, but NOT
+// monotonic in processing order (the reassembler may deliver events out of
+// timestamp order, and "the order the events were processed" is what counts).
+const scrambleMod = 100003
+
+func scramble(i int) int { return (i*7919 + 13) % scrambleMod }
+
+var unscrambleTable = func() map[int]int {
+	m := make(map[int]int, 4096)
+	for i := 0; i < 4096; i++ {
+		m[scramble(i)] = i
+	}
+	return m
+}()
+
+// opTime is the kernel timestamp a history op carries; opIndexOf inverts it.
+func opTime(opIndex int) time.Time { return evTime(scramble(opIndex)) }
+
+func opIndexOf(t time.Time) int {
+	if i, ok := unscrambleTable[evIndexOf(t)]; ok {
+		return i
+	}
+	return -1
+}
+
 var evTypes = map[string]auparse.AuditMessageType{
 	"USER_START": auparse.AUDIT_USER_START, "USER_END": auparse.AUDIT_USER_END, "CRED_ACQ": auparse.AUDIT_CRED_ACQ,
 	"USER_LOGIN": auparse.AUDIT_USER_LOGIN, "USER_CMD": auparse.AUDIT_USER_CMD, "SYSCALL": auparse.AUDIT_SYSCALL,
@@ -96,7 +121,7 @@ var evTypeNames = []string{"USER_START", "USER_END", "CRED_ACQ", "USER_LOGIN", "
 
 // apiEvent builds the coalesced event an op stands for (correlator API level).
 func apiEvent(i int, o hop) *aucoalesce.Event {
-	e := &aucoalesce.Event{Timestamp: evTime(i), Sequence: uint32(1000 + i), Result: "success"}
+	e := &aucoalesce.Event{Timestamp: opTime(i), Sequence: uint32(1000 + i), Result: "success"}
 	e.Summary.Action = "act" + strconv.Itoa(i)
 	e.Summary.How = "how" + strconv.Itoa(i)
 	e.Summary.Object.Primary = "obj" + strconv.Itoa(i)
@@ -313,7 +338,7 @@ type trackerAPI interface {
 func decodeEmits(evs []RecEv) []aEmit {
 	out := make([]aEmit, len(evs))
 	for i, e := range evs {
-		out[i] = aEmit{Ev: evIndexOf(e.Ev.LoggedAt), Ses: e.Ev.Metadata.AuditID, Identity: identityKey(e.Ev), Type: e.Ev.Type, Raw: e.Ev}
+		out[i] = aEmit{Ev: opIndexOf(e.Ev.LoggedAt), Ses: e.Ev.Metadata.AuditID, Identity: identityKey(e.Ev), Type: e.Ev.Type, Raw: e.Ev}
 	}
 	return out
 }
@@ -666,7 +691,11 @@ func oracleC16(ctA, ctB corrTrace) error {
 					return fmt.Errorf("after step %d (%s): session s%d emitted events %v although its pending half was older than the cut-off of the cleanup at step %d and uncorrelated (it must be discarded, the held events dropped, not emitted late); history: %s", i, h.Ops[i], s, a[s], k, h)
 				}
 			default:
-				if !intsEqual(a[s], b[s]) {
+				// only the symptom of a wrong discard is judged: with the cleanup
+				// calls the session lost events it emits without them. Any other
+				// difference is a correlation defect whose effect merely depends on
+				// which other entries exist (C01/C02's concern).
+				if len(a[s]) < len(b[s]) && intsEqual(a[s], b[s][:len(a[s])]) {
 					return fmt.Errorf("after step %d (%s): session s%d emitted %v with the cleanup calls and %v without them, although no cut-off applies to it (cleanup must not discard a younger or a correlated entry); history: %s", i, h.Ops[i], s, a[s], b[s], h)
 				}
 			}
